@@ -140,6 +140,9 @@ class Module {
     };
     std::vector<ModuleItem> children_;
     State state_ = State::kNone;
+    bool is_in_action_ = false; //!< 正在执行 initialize(),start(),stop(),cleanup() 之一，期间不允许重入
+
+    void doStop();
 
     Module *parent_ = nullptr;
     util::Variables vars_;
